@@ -17,7 +17,9 @@ ProbeFailing(e) == IF RatClose(e.want, e.obs, K1e9, 8) THEN {} ELSE {"Marginal"}
 PairFailing(e) == LET a == IF e.sgn = 1 THEN e.obs1 ELSE e.obs2
                       b == IF e.sgn = 1 THEN e.obs2 ELSE e.obs1
                   IN IF SLe(a, SAdd(b, Tol(b, K1e9, 8))) THEN {} ELSE {"Monotone"}
-Failing(e) == IF e.kind = "case" THEN CaseFailing(e) ELSE IF e.kind = "probe" THEN ProbeFailing(e) ELSE PairFailing(e)
+\* [id, kind |-> "hist", obs1, obs2]: the outcome returned by an object after sample() and by the object rebuilt from its visible data
+HistFailing(e) == IF SClose(e.obs1, e.obs2, K1e9, 8) THEN {} ELSE {"HistoryIndependent"}
+Failing(e) == IF e.kind = "case" THEN CaseFailing(e) ELSE IF e.kind = "probe" THEN ProbeFailing(e) ELSE IF e.kind = "hist" THEN HistFailing(e) ELSE PairFailing(e)
 Init == i = 1 /\ bad = {}
 Next == /\ i <= Len(Trace)
         /\ bad' = IF Cardinality(bad) > 30 THEN bad ELSE bad \cup {<<Trace[i].id, c>> : c \in Failing(Trace[i])}
